@@ -525,14 +525,13 @@ def checks_header(checks):
 HARNESS = r'''
 #include "verif_rt.h"
 #include "c24_spec.h"
-#define VERIF_NO_EXTERN_DECLS
-#include "k02.c"
+/* the translated kernels (k02.c) are compiled once per run into the goto binary k02.gb, which is passed to cbmc
+   next to this harness (parsing the kernels for every query dominated the run time) */
 #define K(x) ((uint32_t)(x))
 #define CHECK(c, msg) __CPROVER_assert(c, msg)
-#define uint32_t_PROTO
 uint32_t nondet_u32(void);
 @INDECL@
-#include "c02_checks_cbmc.h"
+#include "c02_checks.h"
 int main(void) {
 @INASSIGN@
   __CPROVER_assume(dom_@CID@_@VAR@());
@@ -600,8 +599,11 @@ def prepare(work):
             ck.meta["_m"] = len(SRC[[r for r in RULES if "range_" + r[0] == ck.cid][0][1]])
     hdr = checks_header(checks)
     open(os.path.join(work, "c02_checks.h"), "w").write(hdr)
-    # for CBMC the kernels are already declared by the translated C: drop the K&R prototypes
-    open(os.path.join(work, "c02_checks_cbmc.h"), "w").write(re.sub(r"^uint(?:8|32)_t k\w+\([^;{]*\);\n", "", hdr, flags=re.M))
+    kk = os.path.join(work, "k02_unit.c")
+    open(kk, "w").write('#include "verif_rt.h"\n#define VERIF_NO_EXTERN_DECLS\n#include "k02.c"\n')
+    rc, out, err = sh(["goto-cc", "-c", "-I", K.HERE, "-I", work, kk, "-o", os.path.join(work, "k02.gb")], timeout=300)
+    if rc != 0 or not os.path.exists(os.path.join(work, "k02.gb")):
+        raise EngineError("goto-cc failed on the translated kernels: " + (out + err)[-1500:])
     table = ", ".join('{"%s", "%s", %d, chk_%s, dom_%s_%s}' % (ck.cid, v, ck.nin, ck.cid, ck.cid, v.replace("-", "_")) for ck in checks for v in ck.doms)
     drv = os.path.join(work, "drv02.c")
     open(drv, "w").write(DRIVER.replace("@TABLE@", table).replace("@BV@", ", ".join("0x%xu" % v for v in c24.BOUNDARY)))
@@ -626,8 +628,94 @@ def obligations(work, checks, tier, only=None):
             meta = dict(ck.meta)
             meta.pop("_m", None)
             meta.update({"what": ck.what, "float_domain": v, "_ck": ck, "_var": v, "_key": key})
-            obls.append(K.Obligation(name, [h], unwind=6, timeout=60 if tier == "quick" else 600, includes=[work], meta=meta))
+            obls.append(K.Obligation(name, [h, os.path.join(work, "k02.gb")], unwind=6, timeout=60 if tier == "quick" else 600, includes=[work], meta=meta))
     return obls
+
+BATCH_HARNESS = r'''
+#include "verif_rt.h"
+#include "c24_spec.h"
+#define K(x) ((uint32_t)(x))
+#define CHECK(c, msg) __CPROVER_assert(c, msg)
+uint32_t nondet_u32(void);
+#include "c02_checks.h"
+int main(void) {
+@BLOCKS@
+  return 0;
+}
+'''
+
+
+def run_batched(work, obls, tier, jobs=6, size=8):
+    """Decide several obligations (different checks, same group and float domain) in one CBMC query: the fixed cost of
+    a CBMC start dominates these small queries.  Properties are attributed to a check through the name of its chk_
+    function; a check counts as discharged only if all its properties succeed AND its own witness assertion is
+    violated in the -DWITNESS twin.  Everything else (a failed or unattributable property, a capped run) falls back to
+    the one-obligation-per-query path, which also produces the counterexample trace used for replay."""
+    import concurrent.futures as cf
+    groups = {}
+    for o in obls:
+        groups.setdefault((o.meta["_ck"].group, o.meta["_var"]), []).append(o)
+    batches = []
+    for key in sorted(groups):
+        lst = groups[key]
+        for i in range(0, len(lst), size):
+            batches.append(lst[i:i + size])
+    gb = os.path.join(work, "k02.gb")
+    stats = {"batch_queries": 0, "batched_obligations": 0}
+
+    def one(idx_b):
+        idx, b = idx_b
+        blocks = []
+        for o in b:
+            ck, v = o.meta["_ck"], o.meta["_var"].replace("-", "_")
+            blocks.append("  { %s\n    if (dom_%s_%s()) {\n      chk_%s();\n#ifdef WITNESS\n      __CPROVER_assert(0, \"witness %s\");\n#endif\n    } }"
+                          % (" ".join("IN[%d] = nondet_u32();" % i for i in range(ck.nin)), ck.cid, v, ck.cid, ck.cid))
+        h = os.path.join(work, "hb02_%d.c" % idx)
+        open(h, "w").write(BATCH_HARNESS.replace("@BLOCKS@", "\n".join(blocks)))
+        to = (60 if tier == "quick" else 600)
+        r = K.cbmc([h, gb], unwind=6, timeout=to, includes=[work], trace=False, extra=["--object-bits", "12"])
+        n = 1
+        if r.status not in ("success", "failed"):
+            return b, n
+        bad = set()
+        for pname, desc in r.failed:
+            m = re.match(r"chk_(\w+)\.assertion\.\d+$", pname)
+            if not m:
+                return b, n          # failure inside a kernel or helper: decide every obligation separately
+            bad.add(m.group(1))
+        w = K.cbmc([h, gb], defines=["WITNESS"], unwind=6, timeout=to, includes=[work], trace=False, extra=["--object-bits", "12"])
+        n = 2
+        if w.status != "failed":
+            return b, n
+        reached = set()
+        for pname, desc in w.failed:
+            m = re.search(r"\bwitness (\w+)$", desc)
+            if m and pname.startswith("main."):
+                reached.add(m.group(1))
+                continue
+            m = re.match(r"chk_(\w+)\.assertion\.\d+$", pname)
+            if not (m and m.group(1) in bad):
+                return b, n
+        left = []
+        for o in b:
+            cid = o.meta["_ck"].cid
+            if cid in bad or cid not in reached:
+                left.append(o)
+            else:
+                o.verdict, o.res, o.wres = "holds", r, w
+                o.meta["decided_in_batch_of"] = len(b)
+        return left, n
+
+    with cf.ThreadPoolExecutor(max_workers=jobs) as ex:
+        results = list(ex.map(one, enumerate(batches)))
+    left = []
+    for l, n in results:
+        left += l
+        stats["batch_queries"] += n
+    stats["batched_obligations"] = len(obls) - len(left)
+    K.run_all(left, jobs=jobs)
+    stats["single_queries"] = sum((1 if o.res else 0) + (1 if o.wres else 0) for o in left)
+    return stats
 
 
 def _bits(r, nm):
@@ -700,7 +788,8 @@ def run(tier, seed, only=None):
             obls_a = c24.obligations(p24, tier)
         g, checks, cpp, c, nlines = prepare(work)
         obls = [] if (only and only.startswith("ops")) else obligations(work, checks, tier, only)
-        K.run_all(obls_a + obls, jobs=6)
+        K.run_all(obls_a, jobs=6)
+        bstats = run_batched(work, obls, tier, jobs=6)
         if p24:
             c24.triage(p24, obls_a, res, pid=PID)
         instances = triage(work, obls, res, cpp)
@@ -744,8 +833,9 @@ def run(tier, seed, only=None):
             "generated_cpp_sha": g.sha,
             "relation_types": sorted(g.types),
             "bounds": {"arity": "<= 3 (direct relations) and 7 (indirect/wide relations)", "attribute_types": "i/u/f", "cells": "all 32-bit values (float special values in separate obligations)", "unwind": 6},
-            "queries": sum((1 if o.res else 0) + (1 if o.wres else 0) for o in obls_a + obls),
-            "solver_time_s": round(sum((o.res.time if o.res else 0) + (o.wres.time if o.wres else 0) for o in obls_a + obls), 1),
+            "queries": sum((1 if o.res else 0) + (1 if o.wres else 0) for o in obls_a) + bstats["batch_queries"] + bstats["single_queries"],
+            "batching": bstats,
+            "solver_time_s": round(sum(r.time for r in set(x for o in obls_a + obls for x in (o.res, o.wres) if x is not None)), 1),
             "translation_validation_lines": nlines + (p24.nlines if p24 else 0),
             "samples": samples[:4] + [s for s in samples if s["obligation"].startswith("range/")][:3] + [s for s in samples if s["obligation"].startswith("aggregate/")][:2],
             "outside": ["generated loop nests, relation wrapper classes beyond lowerUpperRange_*, multi-file splitting (-C/-G), souffle-compile.py",
